@@ -18,6 +18,8 @@ use vcore::{Ctx, Finish, Rng, RunOpts, ScenarioOut};
 #[derive(Clone, Debug)]
 pub struct Complaint {
     pub class: String,
+    /// index of the act at which the oracle complained
+    #[allow(dead_code)]
     pub at: usize,
     pub what: String,
 }
@@ -140,7 +142,7 @@ pub fn run_direct(s: &Script, st: &mut RStats, san: bool) -> Option<Complaint> {
     let sync_clock = |real: &mut Direct, m: &Model| {
         real.now = t0 + Duration::from_nanos(m.now);
     };
-    let mut retire = |bufs: &mut BTreeMap<u64, Buf>,
+    let retire = |bufs: &mut BTreeMap<u64, Buf>,
                       retired: &mut Vec<(u64, Vec<u8>, Vec<u8>, &'static str)>,
                       ud: u64,
                       why: &'static str,
@@ -909,7 +911,7 @@ pub fn run(ctx: &Ctx) -> ! {
             "user_data values are unique per script; linked SQEs, fixed files and buffer rings are only submitted to observe -EINVAL".into(),
             "only memory errors on operation buffers count towards C18 in the sanitizer phase; aliasing-model diagnostics elsewhere are reported separately".into(),
         ],
-        min_distinct: ctx.pick(1500, 30_000),
+        min_distinct: ctx.pick(8_000, 100_000),
         required_counters: vec![
             "cqes",
             "cqe:read_ok",
@@ -951,8 +953,8 @@ pub fn run(ctx: &Ctx) -> ! {
     let mut rep = vcore::run_parallel(ctx, directed().len() as u64, RunOpts::default(), move |i| {
         scenario_directed(&c2, i)
     });
-    let budget = ctx.pick(40.0, 400.0);
-    let n_sim = ctx.pick(120u64, 3000);
+    let budget = ctx.pick(45.0, 400.0);
+    let n_sim = ctx.pick(400u64, 3000);
     let c2 = ctx.clone();
     rep.merge(vcore::run_parallel(
         ctx,
@@ -963,7 +965,7 @@ pub fn run(ctx: &Ctx) -> ! {
         },
         move |i| crate::c18sim::scenario(&c2, i),
     ));
-    let n_direct = ctx.pick(20_000u64, 500_000);
+    let n_direct = ctx.pick(120_000u64, 1_500_000);
     let c2 = ctx.clone();
     rep.merge(vcore::run_parallel(
         ctx,
